@@ -172,6 +172,7 @@ struct Scenario {
     for (auto &kv : S.reqs) { const Req &q = kv.second; if (!q.started || !q.accepted || q.calls != 1) continue;
       if (S.fault_closed_tick && q.tick_start > S.fault_closed_tick && q.status == ARES_ENOMEM && !baseline_enomem.count(q.id)) fail(r, "C14.out-of-memory-reported-without-a-failing-allocation", "request " + std::to_string(q.id) + " (" + q.kind + " " + q.name + ") was started after the call in which the single allocation was refused had returned, and still completed with ARES_ENOMEM");
       if (q.id == 9990) r.counters[std::string("c14.probe_status.") + ares_strerror(q.status)]++; }
+    if (S.stuck_after_fault && !S.fault_in_cancel) { std::string who; for (auto &kv : S.reqs) if (kv.second.pending_at_destroy && kv.first != 9990) who += std::to_string(kv.first) + " "; fail(r, "C14.request-orphaned-after-the-fault", "requests " + who + "were left pending with no deadline armed and nothing in flight after the refused allocation; only ares_destroy completed them"); }
     { auto it = S.reqs.find(9990); if (it != S.reqs.end() && it->second.pending_at_destroy && !S.astronomic) fail(r, "C14.channel-not-usable-after-the-fault", std::string("a fresh request issued after the refused allocation was still pending when the channel was destroyed (") + (S.stuck ? "no deadline and nothing deliverable" : "step budget exhausted") + ")"); }
     if (S.fault_pending) r.nontrivial = true;
   }
@@ -549,7 +550,7 @@ struct Scenario {
     auto had_traffic = [&](const Req &q) { std::string k = keyname(q.name); for (size_t i = q.tx_at_start; i < q.tx_at_end && i < w.txs.size(); i++) if (w.txs[i].qname_lower == k || w.txs[i].qname_lower.rfind(k + ".", 0) == 0) return true; return false; };
     for (auto &kv : S.reqs) { const Req &q = kv.second; if (q.calls != 1 || !had_traffic(q)) continue; for (uint32_t ser : q.serials) if (!accepted_at.count(ser) || q.tick_end < accepted_tick[ser]) { accepted_at[ser] = q.t_end; accepted_tick[ser] = q.tick_end; } }
     for (auto &kv : S.reqs) { const Req &q = kv.second;
-      if (q.calls != 1 || q.serials.empty() || q.parent >= 0) continue;
+      if (q.calls != 1 || q.serials.empty()) continue;   // (follow-up requests started from callbacks are judged like any other)
       if (q.kind != "query" && q.kind != "send" && q.kind != "lquery" && q.kind != "lsend" && q.kind != "getaddrinfo" && q.kind != "gethostbyname") continue;
       if (had_traffic(q)) { r.counters["c08.answered_with_traffic"]++; continue; }
       // answered without any transmission of its own question: a cache hit
@@ -577,7 +578,9 @@ struct Scenario {
         if (age_sec - 1 >= life) fail(r, negative ? "C08.negative-answer-replayed-beyond-soa-lifetime" : "C08.replayed-beyond-ttl", ctx + " " + std::to_string(age_sec) + "s after it was cached; lifetime allowed by its TTLs and the maximum is " + std::to_string(life) + "s");
         if (age_sec > 0) { r.counters["c08.hits_after_time_passed"]++; if (prop == "C08") r.nontrivial = true; }
         // every TTL visible through the API is reduced by the time spent cached (whole-second granularity)
-        auto ttl_ok = [&](int64_t got, int64_t orig) { int64_t hi = std::max<int64_t>(0, orig - std::max<int64_t>(0, age_sec - 1)), lo = std::max<int64_t>(0, orig - (age_sec + 1)); return got >= lo && got <= hi; };
+        // (when time passed inside callbacks the library may have stamped the insertion with the earlier instant its processing call began: the TTL may then be reduced by up to that much more)
+        int64_t slack = (S.slow_total_us + 999999) / 1000000;
+        auto ttl_ok = [&](int64_t got, int64_t orig) { int64_t hi = std::max<int64_t>(0, orig - std::max<int64_t>(0, age_sec - 1)), lo = std::max<int64_t>(0, orig - (age_sec + 1 + slack)); return got >= lo && got <= hi; };
         if (age_sec >= 2) {
           if ((q.api == "dnsrec" || q.api == "bytes") && q.rec_ttls.size() == p.ttls.size()) { for (size_t i = 0; i < p.ttls.size(); i++) if (!ttl_ok(q.rec_ttls[i], p.ttls[i])) { fail(r, "C08.ttl-not-decremented.api=" + q.api, ctx + ": record " + std::to_string(i) + " had TTL " + std::to_string(p.ttls[i]) + ", was cached " + std::to_string(age_sec) + "s, the callback saw " + std::to_string(q.rec_ttls[i])); break; } r.counters["c08.ttl_checks." + q.api]++; }
           if ((q.api == "dnsrec" || q.api == "bytes") && p.has_soa && q.got_soa) { if (!ttl_ok(q.soa_ttl, p.soa_ttl)) fail(r, "C08.ttl-not-decremented.authority", ctx + ": the authority SOA had TTL " + std::to_string(p.soa_ttl) + ", was cached " + std::to_string(age_sec) + "s, the callback saw " + std::to_string(q.soa_ttl)); r.counters["c08.ttl_checks.authority_soa"]++; }
@@ -667,6 +670,8 @@ struct Scenario {
     if (s.c14 && !s.destroyed && s.ch) {
       // the channel must still be usable: a fresh request on it completes (the allocator is healthy from here on)
       bool was_armed = vf::ledger().armed && vf::ledger().fail_at; uint64_t fa = vf::ledger().fail_at, cnt = vf::ledger().counter;
+      // requests that are pending with no deadline and nothing deliverable were orphaned by the handling of the refused allocation (they would only be completed by cancel / destroy)
+      if (s.fault_tick && s.stuck) s.stuck_after_fault = true;
       if (s.fault_tick) vf::ledger().disarm();
       if (s.fault_tick) { Req rq; rq.id = 9990; rq.kind = "query"; rq.name = "usable.probe.test"; s.reqs[9990] = rq; s.order.push_back(9990); s.start(s.reqs[9990]); s.stuck = false; s.budget_exhausted = false; s.astronomic = false; s.drain_steps = 0; s.drain(); }
       (void)was_armed; (void)fa; (void)cnt;
